@@ -16,7 +16,7 @@ import (
 // TestC10NamedTypes: payloads of hand-declared named struct types, among them distinct function-local types that
 // share a name, processed in a drawn order by one or several filters (default operations).
 func TestC10NamedTypes(t *testing.T) {
-	sec := stats.Sec("named_types", "rapid: 2-8 payloads drawn from a catalogue of named struct types (a package-level type and three function-local types that all are called Rec, with different class tags), processed in the drawn order by 1-2 filters with default operations; oracle = public fields are forwarded unchanged and the caller's payload is untouched; non-trivial = >=2 different types of the same name were processed; distinct = order of the cases")
+	sec := stats.Sec("named_types", "rapid: 2-8 payloads drawn from a catalogue of named struct types (a package-level type and three function-local types that all are called Rec, with different class tags, and three payloads of mutually recursive types whose protected leaves are reached again through a type without leaves of its own), processed in the drawn order by 1-2 filters with default operations; oracle = public fields are forwarded unchanged and the caller's payload is untouched; non-trivial = >=2 different types of the same name were processed; distinct = order of the cases")
 	cases := encrun.NamedCases()
 	rapid.Check(t, func(t *rapid.T) {
 		order := rapid.SliceOfN(rapid.IntRange(0, len(cases)-1), 2, 8).Draw(t, "order")
